@@ -1,34 +1,60 @@
 """C11 - motif census: correspondence of lean/Hgxv/Model/C11.lean with hypergraphx.motifs.* and
-independent property oracles (exhaustive enumeration of node subsets) on the implementation."""
+independent property oracles (exhaustive enumeration of node subsets) on the implementation.
+
+The explored unit is a SESSION: several related hypergraphs over one label universe, analysed one after the other in
+this process (orders 3 and 4 each), plus one long-lived container object that is edited in place from one hypergraph
+to the next.  A reported case carries `history` = the earlier steps that have to be re-run before it (see `replay`)."""
 import contextlib
 import io
 import itertools
+import json
+import os
 import signal
+import subprocess
+import sys
+import time
 
 import hgxv
 
 RULE = ("(a) generate_motifs(3) and generate_motifs(4) compared IN FULL with the model's tables (classes, mapping, "
-        "labeling keys, _is_connected on all 16 / 2048 labelled patterns); (b) random Hypergraph instances (4-8 nodes "
-        "from a sparse integer universe, 2-16 hyperedges of size 1-6, dense dyadic part, nested and overlapping "
-        "hyperedges injected), orders 3 and 4: compute_motifs(h, n, 0)['observed'] and the three passes against the "
-        "model and against exhaustive enumeration of all n-subsets; the same hypergraph relabelled by a random "
-        "permutation of a fresh label universe and rebuilt in 5 random insertion orders (node order inside hyperedges "
-        "shuffled too); (c) random DirectedHypergraph instances (4-7 nodes, disjoint non-empty sides, size 2-6) with "
-        "compute_directed_motifs likewise (canonical keys, relabelling, removal/addition of larger hyperedges, "
-        "enumeration). A case is distinct by (kind, order, canonical hyperedge list); non-trivial when at least 3 "
-        "classes have a non-zero count")
+        "labeling keys, _is_connected on all 16 / 2048 labelled patterns); (b) sessions of 3-4 related Hypergraph "
+        "instances over ONE label universe (4-8 nodes from a sparse integer window, also negative labels; 2-16 "
+        "hyperedges of size 1-6, nested and overlapping hyperedges injected; the next instance is derived from the "
+        "previous one by dissolving a hyperedge into pairs / facets on the same nodes, fusing a connected node set "
+        "into one hyperedge, permuting the labels inside the universe, rewiring one hyperedge, exchanging a node between two hyperedges (sizes and degrees kept), random churn, or "
+        "nothing), all analysed in this one process, orders 3 and 4: compute_motifs(h, n, 0)['observed'] and the "
+        "three passes (tallies, visited sets) against the model and against exhaustive enumeration of all n-subsets; "
+        "the same hypergraph relabelled into fresh labels and rebuilt in 5 random insertion orders (node order "
+        "inside hyperedges shuffled too); the census of one long-lived Hypergraph object that is edited in place "
+        "(remove_edge / add_edge) from instance to instance; (c) sessions of DirectedHypergraph instances (4-7 nodes, "
+        "disjoint non-empty sides, size 2-6) with compute_directed_motifs likewise (canonical keys, relabelling, "
+        "removal/addition of larger hyperedges, enumeration, visited sets of both passes, in-place edited object). "
+        "A case is distinct by (kind, order, canonical hyperedge list); non-trivial when at least 3 classes have a "
+        "non-zero count")
 ASSUMPTIONS = ["integer node labels; hyperedge sizes 1..6 (the property's quantifier); labels reach the model as ranks",
                "directed hyperedges have disjoint non-empty source and target sets (the property's quantifier)",
-               "most order-4 calls run with hypergraphx.motifs.utils.generate_motifs memoised by the harness (the "
-               "function itself is compared in full with the model once per run and a few calls per run are made "
-               "without the memo); the memo returns a fresh copy of the counting dict on every call"]
+               "most order-4 steps run with hypergraphx.motifs.utils.generate_motifs memoised by the harness for the "
+               "duration of ONE step (the function itself is compared in full with the model once per run and a few "
+               "steps per run are made without the memo; every order-3 step is made without it); the memo returns a "
+               "fresh copy of the counting dict on every call",
+               "a finding's replay re-runs the steps listed in its `history` (by default the earlier steps of its "
+               "session; the harness tries shorter / longer prefixes in a fresh process and keeps the first that "
+               "reproduces the finding)"]
 TRUSTED = ["Python set/dict iteration order does not influence the counted node subsets (the model pops the head of a "
            "list where graph_extend pops an arbitrary set element; only counts are compared)"]
 BUDGET_S = {"quick": 50, "thorough": 800}
 
+LOG = []            # every step made in this process, in order
+CONFIRM = True      # main run: the history of a finding is settled in a fresh process
+CONFIRMS_LEFT = [3]
+
 
 class Timeout(Exception):
     pass
+
+
+class ToolFailure(Exception):
+    """the Lean driver (not the implementation) failed"""
 
 
 def _alarm(signum, frame):
@@ -49,6 +75,13 @@ def guarded(f, *a, secs=8, **k):
     finally:
         signal.alarm(0)
         signal.signal(signal.SIGALRM, old)
+
+
+def ask(drv, lines):
+    try:
+        return drv.batch(lines)
+    except Exception as e:  # noqa: BLE001
+        raise ToolFailure(repr(e))
 
 
 # ------------------------------------------------------------------------------------------
@@ -128,9 +161,9 @@ def brute_census(E, n):
 # ------------------------------------------------------------------------------------------
 # (a) tables
 
-def check_tables(ctx, drv, n):
+def check_tables(ctx, drv, sess, case):
     from hypergraphx.motifs import utils
-    case = {"kind": "tables", "n": n}
+    n = case["n"]
     st, res = guarded(utils.generate_motifs, n, secs=25)
     if st != "ok":
         ctx.violation(case, f"generate_motifs({n}) failed: {res}")
@@ -178,6 +211,14 @@ def check_tables(ctx, drv, n):
                             f"({len(set(labkeys))} keys, {len(conn)} connected patterns)")
     if not zero:
         ctx.violation(case, f"generate_motifs({n}) returns non-zero initial counts")
+    # a second call must give the same tables again, with fresh zero counts (nothing kept from the first call)
+    st_b, res_b = guarded(utils.generate_motifs, n, secs=25)
+    try:
+        same = st_b == "ok" and res_b[0] == mapping and set(res_b[1]) == set(labeling) and not any(res_b[1].values())
+    except Exception:  # noqa: BLE001
+        same = False
+    if not same:
+        ctx.violation(case, f"a second call of generate_motifs({n}) does not return the same tables with zero counts")
     ic = []
     bad_calls = 0
     for m in range(1 << len(A)):
@@ -193,7 +234,7 @@ def check_tables(ctx, drv, n):
     ctx.case(("tables", n), True, sample=case)
     ctx.count(f"table_entries_n{n}", len(labkeys) + len(cls))
     if drv is not None:
-        ans = drv.batch([f"classes {n}", f"orbits {n}", f"labeling {n}", f"connected {n}"])
+        ans = ask(drv, [f"classes {n}", f"orbits {n}", f"labeling {n}", f"connected {n}"])
         if sorted(hgxv.dec_list(ans[0])) != sorted(cls):
             ctx.disagree(case, f"class representatives differ: model {ans[0][:200]}, implementation {sorted(cls)[:40]}")
         morb = {}
@@ -234,11 +275,105 @@ class Memo:
 
 
 # ------------------------------------------------------------------------------------------
+# sessions
+
+class Session:
+    """what lives from one step of a session to the next: the steps made so far (= the prefix a replay re-runs) and
+    the long-lived container objects that are edited in place"""
+
+    def __init__(self):
+        self.steps = []
+        self.live = {}      # kind -> [object, set of canonical hyperedges it holds]
+
+
+class Mute:
+    """ctx stand-in while the history of a case is re-run: nothing is reported"""
+
+    def __init__(self, ctx):
+        self._ctx = ctx
+        self.violations = []
+        self.disagreements = []
+
+    def case(self, *a, **k):
+        pass
+
+    def count(self, *a, **k):
+        pass
+
+    def known(self, *a, **k):
+        pass
+
+    def violation(self, case, what):
+        self.violations.append((case, what))
+
+    def disagree(self, case, what):
+        self.disagreements.append((case, what))
+
+    def too_many(self, n=5):
+        return False
+
+    def time_left(self):
+        return self._ctx.time_left()
+
+
+def window(i):
+    """first label of session i's window: 40 labels for the hypergraphs, 20 more for the `fresh` relabelling;
+    windows of different sessions are disjoint, every fourth one is negative, every eighth beyond 64 bits"""
+    if i % 8 == 5:
+        return (1 << 65) + 61 * i
+    return -61 * i if i % 4 == 3 else 61 * i
+
+
+def null_model_round(ctx, case, obs_fn, h, n, obs, word):
+    """the same call with one configuration-model round requested: its 'observed' entry is the same census, and the
+    argument still has the same census afterwards.  (The null model itself is not judged here; when that call
+    fails nothing is concluded.)"""
+    st, o1 = obs_fn(h, n, secs=15, runs=1)
+    if st != "ok":
+        ctx.count("null_model_round_failed")
+        return
+    ctx.count("null_model_rounds")
+    if o1 != obs:
+        ctx.violation({**case, "runs_config_model": 1}, f"{word} order-{n} 'observed' differs between runs_config_model=0 and =1")
+    st, o2 = obs_fn(h, n)
+    if st != "ok" or o2 != obs:
+        ctx.violation({**case, "runs_config_model": 1}, f"{word} order-{n} census of the same object differs after a "
+                      "call with runs_config_model=1 (argument or internal state changed)")
+
+
+def live_census(sess, kind, canon, n, secs=8):
+    """edit the session's long-lived container in place until it holds exactly the hyperedges `canon` (canonical
+    form -> the form that is handed to add_edge), then take the census of that same object.
+    -> None when the container could not be edited (not this property's business), else (status, census)"""
+    if kind not in sess.live:
+        from hypergraphx import DirectedHypergraph, Hypergraph
+        st, obj = guarded(Hypergraph if kind == "undirected" else DirectedHypergraph)
+        if st != "ok":
+            return None
+        sess.live[kind] = [obj, set()]
+    obj, have = sess.live[kind]
+
+    def edit():
+        for k in sorted(have - set(canon)):
+            obj.remove_edge(k)
+            have.discard(k)
+        for k in canon:
+            if k not in have:
+                obj.add_edge(canon[k])
+                have.add(k)
+    st, why = guarded(edit)
+    if st != "ok":
+        del sess.live[kind]
+        return None
+    return (observed if kind == "undirected" else dobserved)(obj, n, secs=secs)
+
+
+# ------------------------------------------------------------------------------------------
 # (b) undirected census
 
-def gen_hg(rng):
+def gen_hg(rng, base=0):
     n = rng.randint(4, 8)
-    labels = sorted(rng.sample(range(0, 40), n))
+    labels = sorted(rng.sample(range(base, base + 40), n))
     edges = []
     k = rng.randint(2, 16)
     style = rng.random()
@@ -262,6 +397,101 @@ def gen_hg(rng):
     return labels, edges
 
 
+def mutate_hg(rng, labels, edges):
+    """a related hypergraph over the SAME labels -> (name of the edit, hyperedges)"""
+    edges = [tuple(e) for e in edges]
+    have = {frozenset(e) for e in edges}
+    ops = ["dissolve", "dissolve", "dissolve", "fuse", "fuse", "permute", "rewire", "rewire", "swap", "swap", "churn", "same"]
+    for op in rng.sample(ops, len(ops)):
+        if op == "swap":
+            # two hyperedges exchange a node: node set, number of hyperedges of every size and all degrees stay
+            for _ in range(10):
+                i, j = rng.sample(range(len(edges)), 2) if len(edges) >= 2 else (0, 0)
+                xs = [x for x in edges[i] if x not in edges[j]]
+                ys = [y for y in edges[j] if y not in edges[i]]
+                if i == j or not xs or not ys:
+                    continue
+                x, y = rng.choice(xs), rng.choice(ys)
+                e2 = tuple(y if z == x else z for z in edges[i])
+                f2 = tuple(x if z == y else z for z in edges[j])
+                if frozenset(e2) in have or frozenset(f2) in have or frozenset(e2) == frozenset(f2):
+                    continue
+                es = list(edges)
+                es[i], es[j] = e2, f2
+                return op, es
+            continue
+        if op == "dissolve":
+            # a hyperedge disappears, its nodes stay connected through smaller hyperedges
+            big = [e for e in edges if len(e) >= 3]
+            if not big:
+                continue
+            e = rng.choice(big)
+            rest = [f for f in edges if frozenset(f) != frozenset(e)]
+            v = list(e)
+            rng.shuffle(v)
+            style = rng.randrange(4)
+            if style == 0:
+                new = [(v[i], v[i + 1]) for i in range(len(v) - 1)]
+            elif style == 1:
+                new = [(v[0], x) for x in v[1:]]
+            elif style == 2:
+                new = list(itertools.combinations(v, 2))
+            else:
+                new = [tuple(x for x in v if x != y) for y in v[:rng.randint(2, len(v))]]
+            return op, rest + new
+        if op == "fuse":
+            # a node set that is already connected becomes one hyperedge
+            k = rng.choice([3, 3, 4, 4, 5])
+            seeds = [e for e in edges if 2 <= len(e) < k]
+            if not seeds:
+                continue
+            S = set(rng.choice(seeds))
+            for _ in range(20):
+                if len(S) >= k:
+                    break
+                near = sorted({x for f in edges if S & set(f) for x in f if x not in S})
+                if not near:
+                    break
+                S.add(rng.choice(near))
+            if len(S) < 3 or frozenset(S) in have:
+                continue
+            t = sorted(S)
+            rng.shuffle(t)
+            es = list(edges)
+            es.insert(rng.randint(0, len(es)), tuple(t))
+            return op, es
+        if op == "permute":
+            p = dict(zip(labels, rng.sample(labels, len(labels))))
+            return op, [tuple(p[x] for x in e) for e in edges]
+        if op == "rewire":
+            # same number of hyperedges of every size, one of them on other nodes
+            idx = rng.randrange(len(edges))
+            nodes = {x for e in edges for x in e}
+            cand = None
+            for _ in range(12):
+                f = tuple(rng.sample(labels, len(edges[idx])))
+                if frozenset(f) in have:
+                    continue
+                cand = edges[:idx] + [f] + edges[idx + 1:]
+                if {x for e in cand for x in e} == nodes:      # preferred: the node set stays as well
+                    break
+            if cand is not None:
+                return op, cand
+            continue
+        if op == "churn":
+            es = list(edges)
+            for _ in range(rng.randint(1, 3)):
+                if len(es) > 1:
+                    es.pop(rng.randrange(len(es)))
+            for _ in range(rng.randint(1, 3)):
+                size = min(len(labels), rng.choice([1, 2, 2, 3, 3, 4, 5, 6]))
+                es.insert(rng.randint(0, len(es)), tuple(rng.sample(labels, size)))
+            return op, es
+        if op == "same":
+            break
+    return "same", list(edges)
+
+
 def build(edges):
     from hypergraphx import Hypergraph
     h = Hypergraph()
@@ -270,9 +500,9 @@ def build(edges):
     return h
 
 
-def observed(h, n, secs=8):
+def observed(h, n, secs=8, runs=0):
     from hypergraphx.motifs.motifs import compute_motifs
-    st, res = guarded(compute_motifs, h, n, runs_config_model=0, secs=secs)
+    st, res = guarded(compute_motifs, h, n, runs_config_model=runs, secs=secs)
     if st != "ok":
         return st, res
     try:
@@ -303,15 +533,52 @@ def nz(d):
     return {k: v for k, v in d.items() if v}
 
 
-def check_hg(ctx, drv, labels, edges, n, perm_seed, passes=True):
-    import random
+def node_sets(vis):
+    return sorted(tuple(sorted(s)) for s in vis)
+
+
+def impl_passes(Eup, n):
+    """the three passes called directly, in the order and with the visited hand-over of compute_motifs
+    -> ('ok', (full, not_full, standard, visited after full, visited after not_full)) or ('exc', why)"""
     from hypergraphx.motifs import utils
-    case = {"kind": "undirected", "n": n, "labels": labels, "edges": edges, "perm_seed": perm_seed}
+    pf = guarded(utils._motifs_ho_full, list(Eup), n)
+    if pf[0] != "ok":
+        return "exc", "_motifs_ho_full: " + pf[1]
+    try:
+        full, vis = pf[1]
+        v1 = node_sets(vis)
+        vis = dict(vis)
+        if n == 4:
+            pn = guarded(utils._motifs_ho_not_full, list(Eup), n, vis)
+            if pn[0] != "ok":
+                return "exc", "_motifs_ho_not_full: " + pn[1]
+            nf, vis = pn[1]
+        else:
+            nf = [(k, 0) for k, _ in full]
+        v2 = node_sets(vis)
+        ps = guarded(utils._motifs_standard, list(Eup), n, dict(vis))
+        if ps[0] != "ok":
+            return "exc", "_motifs_standard: " + ps[1]
+        tallies = []
+        for impl in (full, nf, ps[1]):
+            tallies.append({mask_of(n, k): int(c) for k, c in impl})
+        return "ok", (tallies[0], tallies[1], tallies[2], v1, v2)
+    except Exception as e:  # noqa: BLE001
+        return "exc", f"unreadable result of a pass: {e!r}"
+
+
+def check_hg(ctx, drv, sess, case):
+    import random
+    n, labels, edges, perm_seed = case["n"], case["labels"], case["edges"], case["perm_seed"]
+    base = case.get("base", 0)
     st, h = guarded(build, edges)
     if st != "ok":
         ctx.violation(case, "Hypergraph construction failed: " + h)
         return
-    E = [tuple(e) for e in h.get_edges()]
+    st, E = guarded(lambda: [tuple(e) for e in h.get_edges()])
+    if st != "ok":
+        ctx.violation(case, "Hypergraph.get_edges failed: " + E)
+        return
     key = ("u", n, tuple(sorted(tuple(sorted(e)) for e in E)))
     st, obs = observed(h, n)
     if st != "ok":
@@ -330,14 +597,14 @@ def check_hg(ctx, drv, labels, edges, n, perm_seed, passes=True):
     if got != brute:
         diff = [(k, got.get(k, 0), brute.get(k, 0)) for k in set(got) | set(brute) if got.get(k, 0) != brute.get(k, 0)][:3]
         ctx.violation(case, f"order-{n} census differs from exhaustive enumeration: (class, reported, enumerated) = {diff}")
-    ctx.case(key, len(nz(obs)) >= 3, sample=case)
+    ctx.case(key, len(nz(obs)) >= 3, sample={k: v for k, v in case.items() if k != "history"})
     ctx.count(f"order{n}_cases")
     ctx.count(f"order{n}_subsets_counted", sum(obs.values()))
-    if any(len(e) > n for e in h.get_edges()):
+    if any(len(e) > n for e in E):
         ctx.count(f"order{n}_cases_with_larger_hyperedges")
     # metamorphic oracles: relabelling, insertion order
     r = random.Random(perm_seed)
-    fresh = r.sample(range(0, 60), len(labels))
+    fresh = r.sample(range(base, base + 60), len(labels))
     pi = dict(zip(labels, fresh))
     st2, obs2 = observed(build([tuple(pi[x] for x in e) for e in edges]), n)
     if st2 != "ok" or obs2 != obs:
@@ -353,58 +620,65 @@ def check_hg(ctx, drv, labels, edges, n, perm_seed, passes=True):
             ctx.violation({**case, "order": es}, f"order-{n} census changes with the insertion order {es}: "
                           + (obs3 if st3 != "ok" else str(sorted(set(nz(obs).items()) ^ set(nz(obs3).items()))[:4])))
             break
+    if case.get("null_model"):
+        null_model_round(ctx, case, observed, h, n, obs, "undirected")
+    # the session's long-lived object, edited in place to the same content
+    canon = {}
+    for e in edges:
+        canon.setdefault(tuple(sorted(e)), e)
+    lv = live_census(sess, "undirected", canon, n)
+    if lv is None:
+        ctx.count("live_object_not_editable")
+    else:
+        ctx.count("live_object_censuses")
+        if lv[0] != "ok" or lv[1] != obs:
+            ctx.violation({**case, "live": True},
+                          f"order-{n} census of a Hypergraph that was edited in place (remove_edge/add_edge along the "
+                          "session) differs from the census of a freshly built hypergraph with the same hyperedges: "
+                          + (lv[1] if lv[0] != "ok" else str(sorted(set(nz(obs).items()) ^ set(nz(lv[1]).items()))[:4])))
+    # the three passes, called the way compute_motifs calls them (done with or without the model: they are part of
+    # the call sequence a replay has to repeat)
+    ip = None
+    if case.get("passes", True):
+        ip = impl_passes([e for e in E if len(e) <= n], n)
     if drv is None:
         return
-    rank = {x: i for i, x in enumerate(sorted(labels))}
+    univ = sorted(set(labels) | {x for e in E for x in e})
+    rank = {x: i for i, x in enumerate(univ)}
     enc = hgxv.enc_lists([[rank[x] for x in e] for e in E])
     lines = [f"census {n} {enc}"]
-    if passes:
+    if ip is not None:
         lines += [f"passes {n} {enc}", f"visited {n} {enc}"]
-    ans = drv.batch(lines)
-    if tally_to_dict(ans[0]) != obs:
-        mod = tally_to_dict(ans[0])
+    ans = ask(drv, lines)
+    mod = tally_to_dict(ans[0])
+    if mod != obs:
         diff = [(pat_of(n, k), mod.get(k), obs.get(k)) for k in set(mod) | set(obs) if mod.get(k) != obs.get(k)][:3]
         ctx.disagree(case, f"census: (pattern, model, implementation) = {diff}")
-    if passes:
-        Eup = [e for e in E if len(e) <= n]
-        pf = guarded(utils._motifs_ho_full, list(Eup), n)
-        ok = pf[0] == "ok"
-        if ok:
-            full, vis = pf[1]
-            v1 = sorted(sorted(rank[x] for x in s) for s in vis)
-            vis = dict(vis)
-            if n == 4:
-                pn = guarded(utils._motifs_ho_not_full, list(Eup), n, vis)
-                ok = pn[0] == "ok"
-                if ok:
-                    nf, vis = pn[1]
-            else:
-                nf = [(k, 0) for k, _ in full]
-        if ok:
-            v2 = sorted(sorted(rank[x] for x in s) for s in vis)
-            ps = guarded(utils._motifs_standard, list(Eup), n, dict(vis))
-            ok = ps[0] == "ok"
-        if not ok:
-            ctx.disagree(case, "a pass raised / timed out while compute_motifs succeeded")
-            return
-        std = ps[1]
-        mp = [tally_to_dict(t) for t in ans[1].split("|")]
-        for name, impl, mod in (("full", full, mp[0]), ("not_full", nf, mp[1]), ("standard", std, mp[2])):
-            d = {mask_of(n, k): c for k, c in impl}
-            if d != mod:
-                diff = [(pat_of(n, k), mod.get(k), d.get(k)) for k in set(mod) | set(d) if k is not None and mod.get(k) != d.get(k)][:3]
-                ctx.disagree(case, f"pass {name}: (pattern, model, implementation) = {diff}")
-        mv = ans[2].split("|")
-        if hgxv.dec_lists(mv[0]) != v1 or hgxv.dec_lists(mv[1]) != v2:
-            ctx.disagree(case, f"visited sets differ: model {ans[2][:200]}, implementation {v1} | {v2}")
+    if ip is None:
+        return
+    if ip[0] != "ok":
+        ctx.disagree(case, "a pass called directly failed while compute_motifs succeeded: " + ip[1])
+        return
+    full, nf, std, v1, v2 = ip[1]
+    mp = [tally_to_dict(t) for t in ans[1].split("|")]
+    for name, d, mod in (("full", full, mp[0]), ("not_full", nf, mp[1]), ("standard", std, mp[2])):
+        if d != mod:
+            diff = [(pat_of(n, k), mod.get(k), d.get(k)) for k in set(mod) | set(d) if k is not None and mod.get(k) != d.get(k)][:3]
+            ctx.disagree(case, f"pass {name}: (pattern, model, implementation) = {diff}")
+            break
+    mv = [sorted(tuple(univ[i] for i in s) for s in hgxv.dec_lists(t)) for t in ans[2].split("|")]
+    if mv[0] != v1 or mv[1] != v2:
+        odd = [s for s in v1 + v2 if s not in mv[1]][:3]
+        ctx.disagree(case, f"visited node sets differ: model {mv[0]} | {mv[1]}, implementation {v1[:12]} | {v2[:12]}"
+                     + (f"; {odd} are not node sets this input can classify (state of an earlier call?)" if odd else ""))
 
 
 # ------------------------------------------------------------------------------------------
 # (c) directed census
 
-def gen_dhg(rng):
+def gen_dhg(rng, base=0):
     n = rng.randint(4, 7)
-    labels = sorted(rng.sample(range(0, 40), n))
+    labels = sorted(rng.sample(range(base, base + 40), n))
     edges = []
     for _ in range(rng.randint(2, 12)):
         size = min(n, rng.choice([2, 2, 3, 3, 3, 4, 4, 4, 5, 6]))
@@ -428,6 +702,103 @@ def gen_dhg(rng):
     return labels, edges
 
 
+def split(rng, nodes):
+    nodes = list(nodes)
+    rng.shuffle(nodes)
+    k = rng.randint(1, len(nodes) - 1)
+    return (tuple(nodes[:k]), tuple(nodes[k:]))
+
+
+def dkey(e):
+    return (tuple(sorted(e[0])), tuple(sorted(e[1])))
+
+
+def mutate_dhg(rng, labels, edges):
+    """a related directed hypergraph over the SAME labels -> (name of the edit, hyperedges)"""
+    edges = [(tuple(e[0]), tuple(e[1])) for e in edges]
+    have = {dkey(e) for e in edges}
+    spans = {frozenset(e[0] + e[1]) for e in edges}
+    ops = ["dissolve", "dissolve", "dissolve", "fuse", "fuse", "permute", "rewire", "rewire", "swap", "swap", "flip", "churn", "same"]
+    for op in rng.sample(ops, len(ops)):
+        if op == "swap":
+            # two hyperedges exchange a node (each node keeps its side): node set, sizes and degrees stay
+            for _ in range(10):
+                i, j = rng.sample(range(len(edges)), 2) if len(edges) >= 2 else (0, 0)
+                ni, nj = edges[i][0] + edges[i][1], edges[j][0] + edges[j][1]
+                xs = [x for x in ni if x not in nj]
+                ys = [y for y in nj if y not in ni]
+                if i == j or not xs or not ys:
+                    continue
+                x, y = rng.choice(xs), rng.choice(ys)
+                e2 = tuple(tuple(y if z == x else z for z in side) for side in edges[i])
+                f2 = tuple(tuple(x if z == y else z for z in side) for side in edges[j])
+                if dkey(e2) in have or dkey(f2) in have or dkey(e2) == dkey(f2):
+                    continue
+                es = list(edges)
+                es[i], es[j] = e2, f2
+                return op, es
+            continue
+        if op == "dissolve":
+            # every hyperedge on a node set disappears; a hyperedge on all but one of the nodes and an arc to the
+            # remaining node take its place
+            big = [e for e in edges if len(e[0] + e[1]) >= 3]
+            if not big:
+                continue
+            e = rng.choice(big)
+            S = frozenset(e[0] + e[1])
+            rest = [f for f in edges if frozenset(f[0] + f[1]) != S]
+            v = sorted(S)
+            rng.shuffle(v)
+            arc = (v[0], rng.choice(v[1:]))
+            new = [split(rng, v[1:]), ((arc[0],), (arc[1],)) if rng.random() < 0.5 else ((arc[1],), (arc[0],))]
+            return op, rest + new
+        if op == "fuse":
+            # a hyperedge plus an adjacent node become one hyperedge
+            seeds = [e for e in edges if len(e[0] + e[1]) <= 4]
+            if not seeds:
+                continue
+            e = rng.choice(seeds)
+            S = set(e[0] + e[1])
+            near = sorted({x for f in edges if S & set(f[0] + f[1]) for x in f[0] + f[1] if x not in S})
+            if not near:
+                continue
+            S.add(rng.choice(near))
+            if frozenset(S) in spans:
+                continue
+            es = list(edges)
+            es.insert(rng.randint(0, len(es)), split(rng, sorted(S)))
+            return op, es
+        if op == "permute":
+            p = dict(zip(labels, rng.sample(labels, len(labels))))
+            return op, [(tuple(p[x] for x in e[0]), tuple(p[x] for x in e[1])) for e in edges]
+        if op == "rewire":
+            idx = rng.randrange(len(edges))
+            size = len(edges[idx][0] + edges[idx][1])
+            for _ in range(10):
+                f = split(rng, rng.sample(labels, size))
+                if dkey(f) not in have:
+                    return op, edges[:idx] + [f] + edges[idx + 1:]
+            continue
+        if op == "flip":
+            idx = rng.randrange(len(edges))
+            f = (edges[idx][1], edges[idx][0])
+            if dkey(f) in have:
+                continue
+            return op, edges[:idx] + [f] + edges[idx + 1:]
+        if op == "churn":
+            es = list(edges)
+            for _ in range(rng.randint(1, 3)):
+                if len(es) > 1:
+                    es.pop(rng.randrange(len(es)))
+            for _ in range(rng.randint(1, 3)):
+                size = min(len(labels), rng.choice([2, 2, 3, 3, 4, 5, 6]))
+                es.insert(rng.randint(0, len(es)), split(rng, rng.sample(labels, size)))
+            return op, es
+        if op == "same":
+            break
+    return "same", list(edges)
+
+
 def dbuild(edges):
     from hypergraphx import DirectedHypergraph
     h = DirectedHypergraph()
@@ -445,9 +816,9 @@ def dcanon_key(n, pat):
     return best
 
 
-def dobserved(h, n, secs=8):
+def dobserved(h, n, secs=8, runs=0):
     from hypergraphx.motifs.directed_motifs import compute_directed_motifs
-    st, res = guarded(compute_directed_motifs, h, n, runs_config_model=0, secs=secs)
+    st, res = guarded(compute_directed_motifs, h, n, runs_config_model=runs, secs=secs)
     if st != "ok":
         return st, res
     try:
@@ -456,7 +827,12 @@ def dobserved(h, n, secs=8):
             k = tuple((tuple(e[0]), tuple(e[1])) for e in k)
             if k in d:
                 return "exc", f"pattern {k!r} reported twice"
+            for e in k:
+                if not all(isinstance(x, int) and 1 <= x <= n for x in e[0] + e[1]):
+                    return "exc", f"pattern {k!r} is not over the nodes 1..{n}"
             d[k] = int(c)
+            if c != int(c):
+                return "exc", "non-integer count"
         return "ok", d
     except Exception as e:  # noqa: BLE001
         return "exc", f"unreadable result: {e!r}"
@@ -499,28 +875,52 @@ def parse_dcensus(s):
     return d
 
 
-def check_dhg(ctx, drv, labels, edges, n, perm_seed):
+def impl_dpasses(Eup, n):
+    """both directed passes called directly -> ('ok', (visited after full, visited after not_full)) or ('exc', why)"""
+    from hypergraphx.motifs import utils
+    pf = guarded(utils._directed_motifs_ho_full, list(Eup), n)
+    if pf[0] != "ok":
+        return "exc", "_directed_motifs_ho_full: " + pf[1]
+    try:
+        _, vis = pf[1]
+        v1 = node_sets(vis)
+        v2 = v1
+        if n == 4:
+            pn = guarded(utils._directed_motifs_ho_not_full, list(Eup), n, dict(vis))
+            if pn[0] != "ok":
+                return "exc", "_directed_motifs_ho_not_full: " + pn[1]
+            v2 = node_sets(pn[1][1])
+        return "ok", (v1, v2)
+    except Exception as e:  # noqa: BLE001
+        return "exc", f"unreadable result of a pass: {e!r}"
+
+
+def check_dhg(ctx, drv, sess, case):
     import random
-    case = {"kind": "directed", "n": n, "labels": labels, "edges": edges, "perm_seed": perm_seed}
+    n, labels, edges, perm_seed = case["n"], case["labels"], case["edges"], case["perm_seed"]
+    base = case.get("base", 0)
     st, h = guarded(dbuild, edges)
     if st != "ok":
         ctx.violation(case, "DirectedHypergraph construction failed: " + h)
         return
-    E = [(tuple(e[0]), tuple(e[1])) for e in h.get_edges()]
+    st, E = guarded(lambda: [(tuple(e[0]), tuple(e[1])) for e in h.get_edges()])
+    if st != "ok":
+        ctx.violation(case, "DirectedHypergraph.get_edges failed: " + E)
+        return
     key = ("d", n, tuple(sorted(E)))
     st, obs = dobserved(h, n)
     if st != "ok":
         ctx.violation(case, f"compute_directed_motifs(h, {n}, 0) failed: {obs}")
         ctx.case(key, False, sample=case)
         return
-    ctx.case(key, len(obs) >= 3, sample=case)
+    ctx.case(key, len(obs) >= 3, sample={k: v for k, v in case.items() if k != "history"})
     ctx.count(f"directed_order{n}_cases")
     for k in obs:
         if dcanon_key(n, k) != k:
             ctx.violation(case, f"reported directed pattern {k} is not the minimum of its relabellings {dcanon_key(n, k)}")
             break
     r = random.Random(perm_seed)
-    fresh = r.sample(range(0, 60), len(labels))
+    fresh = r.sample(range(base, base + 60), len(labels))
     pi = dict(zip(labels, fresh))
     st2, obs2 = dobserved(dbuild([(tuple(pi[x] for x in e[0]), tuple(pi[x] for x in e[1])) for e in edges]), n)
     if st2 != "ok" or obs2 != obs:
@@ -544,64 +944,211 @@ def check_dhg(ctx, drv, labels, edges, n, perm_seed):
     if brute != obs:
         diff = [(k, obs.get(k, 0), brute.get(k, 0)) for k in set(obs) | set(brute) if obs.get(k, 0) != brute.get(k, 0)][:2]
         ctx.violation(case, f"directed order-{n} census differs from the enumeration of node subsets: (pattern, reported, enumerated) = {diff}")
+    if case.get("null_model"):
+        null_model_round(ctx, case, dobserved, h, n, obs, "directed")
+    canon = {}
+    for e in edges:
+        canon.setdefault(dkey(e), e)
+    lv = live_census(sess, "directed", canon, n)
+    if lv is None:
+        ctx.count("live_object_not_editable")
+    else:
+        ctx.count("live_object_censuses")
+        if lv[0] != "ok" or lv[1] != obs:
+            ctx.violation({**case, "live": True},
+                          f"directed order-{n} census of a DirectedHypergraph that was edited in place (remove_edge/"
+                          "add_edge along the session) differs from the census of a freshly built one with the same "
+                          "hyperedges" + (": " + lv[1] if lv[0] != "ok" else ""))
+    ip = impl_dpasses([e for e in E if len(e[0]) + len(e[1]) <= n], n) if case.get("passes", True) else None
     if drv is None:
         return
-    rank = {x: i for i, x in enumerate(sorted(labels))}
+    univ = sorted(set(labels) | {x for e in E for x in e[0] + e[1]})
+    rank = {x: i for i, x in enumerate(univ)}
     a = hgxv.enc_lists([[rank[x] for x in e[0]] for e in E])
     b = hgxv.enc_lists([[rank[x] for x in e[1]] for e in E])
-    ans = drv.ask(f"dcensus {n} {a} {b}")
+    ans = ask(drv, [f"dcensus {n} {a} {b}"] + ([f"dsets {n} {a} {b}"] if ip is not None else []))
     try:
-        mod = parse_dcensus(ans)
+        mod = parse_dcensus(ans[0])
     except Exception:  # noqa: BLE001
         mod = None
     if mod != obs:
-        ctx.disagree(case, f"directed census: model {ans[:300]!r}, implementation {sorted(obs.items())[:4]}")
+        ctx.disagree(case, f"directed census: model {ans[0][:300]!r}, implementation {sorted(obs.items())[:4]}")
+    if ip is None:
+        return
+    if ip[0] != "ok":
+        ctx.disagree(case, "a directed pass called directly failed while compute_directed_motifs succeeded: " + ip[1])
+        return
+    v1, v2 = ip[1]
+    ms = [sorted(tuple(univ[i] for i in s) for s in hgxv.dec_lists(t)) for t in ans[1].split("|")]
+    if ms[0] != v1 or sorted(ms[0] + ms[1]) != v2:
+        ctx.disagree(case, f"visited node sets of the directed passes differ: model {ms[0]} + {ms[1]}, "
+                           f"implementation {v1[:12]} | {v2[:12]}")
 
 
 # ------------------------------------------------------------------------------------------
+# steps, histories, replay
+
+KINDS = {"tables": check_tables, "undirected": check_hg, "directed": check_dhg}
+
+
+def norm_step(st):
+    """a step as read back from JSON"""
+    st = {k: v for k, v in st.items() if k != "history"}
+    kind = st.get("kind")
+    if kind == "undirected":
+        st["edges"] = [tuple(e) for e in st["edges"]]
+    elif kind == "directed":
+        st["edges"] = [(tuple(e[0]), tuple(e[1])) for e in st["edges"]]
+    st.setdefault("perm_seed", 0)
+    return st
+
+
+def run_step(ctx, drv, sess, step):
+    """one step = all implementation calls and all judgements for one (hypergraph, order).  Findings of the step get
+    `history` = the steps to re-run first."""
+    hist = list(sess.steps)
+    case = {**step, "history": hist}
+    nv, nd = len(ctx.violations), len(ctx.disagreements)
+    try:
+        with (Memo() if step.get("memo") else contextlib.nullcontext()):
+            KINDS[step["kind"]](ctx, drv, sess, case)
+    except ToolFailure:
+        raise
+    except Exception as e:  # noqa: BLE001  (an output shape nobody foresaw is an observation, not a tool failure)
+        import traceback
+        where = traceback.extract_tb(e.__traceback__)[-1]
+        ctx.disagree(case, f"the harness could not interpret what the implementation returned: {e!r} "
+                           f"(at {os.path.basename(where.filename)}:{where.lineno})")
+    sess.steps.append(step)
+    LOG.append(step)
+    found = ctx.violations[nv:] + ctx.disagreements[nd:]
+    if found and CONFIRM and not isinstance(ctx, Mute):
+        settle_history(ctx, found, len(ctx.violations) > nv, step, hist)
+
+
+def fresh_process_finds(case, want_violation, timeout):
+    """does a new Python process that re-runs `case` (history first) report the finding again?"""
+    try:
+        p = subprocess.run([sys.executable, os.path.abspath(__file__), "--confirm"],
+                           input=json.dumps(hgxv.jsonable(case)), capture_output=True, text=True, timeout=timeout)
+        r = json.loads(p.stdout.strip().splitlines()[-1])
+        return r["v"] > 0 if want_violation else r["v"] + r["d"] > 0
+    except Exception:  # noqa: BLE001
+        return False
+
+
+def settle_history(ctx, found, want_violation, step, hist):
+    """choose the history stored with the findings of a step: the first of (nothing, the session so far, the last 12 /
+    60 / all steps of this process) with which a fresh process reproduces the finding"""
+    earlier = LOG[:-1]
+    cands = [[]] if hist else []
+    cands.append(hist)
+    for k in (12, 60, len(earlier)):
+        tail = earlier[-k:] if k else []
+        if tail not in cands:
+            cands.append(tail)
+    chosen = None
+    if CONFIRMS_LEFT[0] > 0:
+        CONFIRMS_LEFT[0] -= 1
+        for cand in cands:
+            left = ctx.time_left()
+            if left is not None and left < 10:
+                break
+            if fresh_process_finds({**step, "history": cand}, want_violation, 45 if left is None else min(45, left - 4)):
+                chosen = cand
+                break
+    for c, _ in found:
+        c["history"] = hist if chosen is None else chosen
+        c["history_confirmed_in_fresh_process"] = chosen is not None
+
+
+def too_many(ctx):
+    return len(ctx.violations) >= 5 or len(ctx.disagreements) >= 30
+
 
 def out_of_time(ctx, margin=4):
-    return ctx.too_many() or (ctx.time_left() is not None and ctx.time_left() < margin)
+    return too_many(ctx) or (ctx.time_left() is not None and ctx.time_left() < margin)
 
 
 def run(ctx):
     drv = ctx.driver() if ctx.model_available else None
+    boot = Session()
     for n in (3, 4):
-        check_tables(ctx, drv, n)
+        run_step(ctx, drv, boot, {"kind": "tables", "n": n})
     rng = ctx.rng
-    n_u = ctx.scale(55, 1500)
-    n_d = ctx.scale(40, 1200)
-    raw4 = ctx.scale(2, 40)      # order-4 cases run without the memo
+    n_u = ctx.scale(16, 430)     # undirected sessions (3-4 hypergraphs each, both orders)
+    n_d = ctx.scale(11, 340)     # directed sessions
+    raw4 = ctx.scale(1, 12)      # sessions whose order-4 steps run without the memo
     for i in range(n_u):
-        labels, edges = gen_hg(rng)
-        seed = rng.randrange(1 << 30)
-        check_hg(ctx, drv, labels, edges, 3, seed)
+        base = window(i)
+        labels, edges = gen_hg(rng, base)
+        if i == 0 and 0 not in labels:          # the falsy label takes part in every run
+            edges = [tuple(0 if x == labels[0] else x for x in e) for e in edges]
+            labels = [0] + labels[1:]
+        sess = Session()
+        for j in range(rng.randint(3, 4)):
+            if j:
+                op, edges = mutate_hg(rng, labels, edges)
+                ctx.count("edit_" + op)
+            seed = rng.randrange(1 << 30)
+            for n in (3, 4):
+                raw = n == 4 and i < raw4
+                run_step(ctx, drv, sess, {"kind": "undirected", "n": n, "labels": labels, "edges": edges,
+                                          "perm_seed": seed, "base": base, "memo": n == 4 and not raw,
+                                          "passes": not raw or (i == 0 and j == 0), "null_model": j == 1 and i % 2 == 0})
+                if raw:
+                    ctx.count("order4_cases_without_memo")
+                if out_of_time(ctx):
+                    break
+            if out_of_time(ctx):
+                break
         if out_of_time(ctx):
             break
-        if i < raw4:
-            check_hg(ctx, drv, labels, edges, 4, seed, passes=(i == 0))
-            ctx.count("order4_cases_without_memo")
-        else:
-            with Memo():
-                check_hg(ctx, drv, labels, edges, 4, seed)
-        if out_of_time(ctx):
-            break
+    ctx.count("undirected_sessions", i + 1 if n_u else 0)
     for i in range(n_d):
-        labels, edges = gen_dhg(rng)
-        seed = rng.randrange(1 << 30)
-        for n in (3, 4):
-            check_dhg(ctx, drv, labels, edges, n, seed)
+        base = window(n_u + i)
+        labels, edges = gen_dhg(rng, base)
+        sess = Session()
+        for j in range(rng.randint(3, 4)):
+            if j:
+                op, edges = mutate_dhg(rng, labels, edges)
+                ctx.count("directed_edit_" + op)
+            seed = rng.randrange(1 << 30)
+            for n in (3, 4):
+                run_step(ctx, drv, sess, {"kind": "directed", "n": n, "labels": labels, "edges": edges,
+                                          "perm_seed": seed, "base": base, "null_model": j == 1 and i % 2 == 0})
+                if out_of_time(ctx):
+                    break
+            if out_of_time(ctx):
+                break
         if out_of_time(ctx):
             break
+    ctx.count("directed_sessions", i + 1 if n_d else 0)
 
 
 def replay(ctx, case):
+    """re-run the steps of `case['history']` silently (same calls in the same order, same long-lived objects), then
+    the case itself with all judgements"""
+    global CONFIRM
+    CONFIRM = False
     drv = ctx.driver() if ctx.model_available else None
-    kind = case.get("kind")
-    if kind == "tables":
-        check_tables(ctx, drv, case["n"])
-    elif kind == "undirected":
-        check_hg(ctx, drv, case["labels"], [tuple(e) for e in case["edges"]], case["n"], case.get("perm_seed", 0))
-    elif kind == "directed":
-        check_dhg(ctx, drv, case["labels"], [(tuple(e[0]), tuple(e[1])) for e in case["edges"]], case["n"],
-                  case.get("perm_seed", 0))
+    sess = Session()
+    for st in case.get("history") or []:
+        run_step(Mute(ctx), None, sess, norm_step(st))
+        if ctx.time_left() is not None and ctx.time_left() < 2:
+            break
+    run_step(ctx, drv, sess, norm_step(case))
+
+
+if __name__ == "__main__" and sys.argv[1:] == ["--confirm"]:
+    _case = json.load(sys.stdin)
+    hgxv.use_repo()
+    _ctx = hgxv.Ctx("C11", "quick", 0)
+    _ctx.model_available = os.path.exists(os.path.join(hgxv.LEAN_DIR, ".lake", "build", "bin", "driver_c11"))
+    _ctx.known_findings = []
+    _ctx.deadline = time.time() + 60
+    try:
+        replay(_ctx, _case)
+    finally:
+        _ctx.close()
+    print(json.dumps({"v": len(_ctx.violations), "d": len(_ctx.disagreements)}))
